@@ -27,7 +27,7 @@ type Facts struct {
 	Bytes  map[string][]int64  `json:"bytes"`  // byte/number lists
 	Tables map[string][][2]any `json:"tables"` // (code, name) tables
 	Bools  map[string]bool     `json:"bools"`
-	Miss   []string            `json:"missing"` // anchors not found
+	Miss   []string            `json:"missing"`            // anchors not found
 	Read   *ReadFacts          `json:"readOnly,omitempty"` // C20 effect table with evidence (effects.go)
 }
 
